@@ -162,6 +162,8 @@ type World struct {
 	// Cloud / AltKMS are set by UseAWSKMS: the fake regional cloud and the KMS client of a process in another region.
 	Cloud  *awskms.Cloud
 	AltKMS *probe.KMS
+	// MC is set by UseMemcall: the monitored memory primitives underneath the secure-memory implementation.
+	MC *probe.Memcall
 
 	shadow map[string]map[int64]*appencryption.EnvelopeKeyRecord
 	flips  []Flip
@@ -378,4 +380,16 @@ func DiffDRR(a, b *appencryption.DataRowRecord) string {
 		return "Key.ID differs"
 	}
 	return DiffEKR(a.Key, b.Key)
+}
+
+// UseMemcall rebuilds the world's secret factory on the named secure-memory implementation over a monitored
+// memcall (real pages; every primitive can be made to fail by call index). Must be called before any factory is built.
+func (w *World) UseMemcall(impl string) {
+	w.MC = probe.NewMemcall()
+	if impl == "protectedmemory" {
+		w.Led = probe.NewLedger(protectedmemory.VerifNewSecretFactory(w.MC))
+		return
+	}
+	w.MC.AdoptUnknown = true // memguard allocates and locks inside its own library
+	w.Led = probe.NewLedger(memguard.VerifNewSecretFactory(w.MC))
 }
